@@ -92,7 +92,8 @@ func (t *WebsocketTransport) Connect() (string, error) {
 func (t WebsocketTransport) StartStream() (string, error) {
 	if _, err := fmt.Fprintf(t, `<open xmlns="urn:ietf:params:xml:ns:xmpp-framing" to="%s" version="1.0" />`, t.Config.Domain); err != nil {
 		t.cleanup(websocket.StatusBadGateway)
-		return "", NewConnError(err, true)
+		// The connection broke before <open/> was written: not a permanent condition.
+		return "", NewConnError(err, false)
 	}
 
 	sessionID, err := stanza.InitStream(t.GetDecoder())
